@@ -46,12 +46,13 @@ class ScoreStub:
     def __call__(self, I, args):
         k = len(self.calls)
         qr = args[0].c[args[0].k]
-        tr = args[1].c[args[1].k]
+        # the second argument is the transposed candidate in the pinned tree; a changed signature is recorded, not assumed
+        tr = args[1].c[args[1].k] if len(args) > 1 and type(args[1]) is Ptr and type(args[1].c[args[1].k]) is L else None
         n = qr[1]
-        ent = {'qr': qr, 'tr': tr}
+        ent = {'qr': qr, 'tr': tr, 'extra_args': [a for a in args[1:] if type(a) is not Ptr]}
         if self.snapshot:
             ent['qr_cells'] = [qr[0][i][0] for i in range(n * n)]
-            ent['tr_cells'] = [tr[0][i][0] for i in range(n * n)]
+            ent['tr_cells'] = [tr[0][i][0] for i in range(n * n)] if tr is not None else None
         self.calls.append(ent)
         return T.var('score%d' % k, 32)
 
